@@ -17,6 +17,8 @@ import (
 	sdk "github.com/cosmos/cosmos-sdk/types"
 	"github.com/tendermint/tendermint/libs/log"
 	"google.golang.org/grpc"
+	"google.golang.org/grpc/codes"
+	"google.golang.org/grpc/status"
 
 	"github.com/ovrclk/akash/client"
 	"github.com/ovrclk/akash/client/broadcaster"
@@ -349,7 +351,7 @@ func (s *scenario) opCall(op string, price int64) answer {
 		}
 	}
 	s.rec(line{"e": "call", "c": callName[op], "ph": "end", "r": a.r, "price": a.p})
-	if (op == "qbid" && a.r == "open") || (op == "bcast" && a.r == "ok") {
+	if (op == "qbid" && (a.r == "open" || a.r == "errbid")) || (op == "bcast" && a.r == "ok") {
 		s.mu.Lock()
 		s.chainBid = true
 		s.mu.Unlock()
@@ -417,10 +419,25 @@ func (q *queryClient) Bid(ctx context.Context, in *mtypes.QueryBidRequest, _ ...
 			Price: sdk.NewInt64Coin(denom, MaxPrice)}}, nil
 	}
 	switch a.r {
-	case "notfound":
+	case "notfound": // the chain answers "no such bid"; a.p picks the shape the answer reaches the monitor in
+		switch a.p {
+		case 2:
+			return nil, status.Error(codes.NotFound, "bid not found: invalid request")
+		case 3: // an application error carries no code of its own
+			return nil, status.Error(codes.Unknown, "bid not found: invalid request")
+		}
 		return nil, errors.New("rpc error: code = NotFound desc = bid not found: invalid request")
 	}
-	return nil, errors.New("scripted failure of the bid query")
+	// "err" / "errbid": the lookup FAILED (errbid: while a bid of this provider exists on chain); a.p picks the failure
+	switch a.p {
+	case 2:
+		return nil, context.DeadlineExceeded
+	case 3:
+		return nil, status.Error(codes.Unavailable, "transport is closing")
+	case 4:
+		return nil, status.Error(codes.Unknown, "internal error")
+	}
+	return nil, errors.New("post failed: dial tcp 127.0.0.1:26657: connect: connection refused")
 }
 
 func (q *queryClient) ProviderAuditorAttributes(ctx context.Context, in *audittypes.QueryProviderAuditorRequest, _ ...grpc.CallOption) (*audittypes.QueryProvidersResponse, error) {
